@@ -265,7 +265,7 @@ theorem HoldsColor.setReg {vm : Vm.State} {c : List Int} (h : HoldsColor vm c) (
 /-- `set "n"` -/
 theorem stmt_set_light (n : String) (k : LightKind) (c : List Int) (s : S) (hr : Ready s.vm)
     (hk : HasKind s.vm n k) (hc : HoldsColor s.vm c) (hin : InRange c) :
-    ∃ s', (∀ f, 3 ≤ f → execStmt f (.action .set (.cons (.light (.str n)) .nil)) s = (.normal, s')) ∧
+    ∃ s', (∀ f, 3 ≤ f → execStmt f (.action .set true (.cons (.light (.str n)) .nil)) s = (.normal, s')) ∧
       Adds s s' [.setColor n c 0] ∧ HoldsColor s'.vm c := by
   let s2 : S := (s.setReg .name (.str n)).setReg .operand (.operand .light)
   have hr2 : Ready s2.vm :=
@@ -289,7 +289,7 @@ theorem stmt_set_light (n : String) (k : LightKind) (c : List Int) (s : S) (hr :
 theorem stmt_power_light (n : String) (k : LightKind) (on : Bool) (c : List Int) (s : S)
     (hr : Ready s.vm) (hk : HasKind s.vm n k) (hc : HoldsColor s.vm c) :
     ∃ s', (∀ f, 3 ≤ f →
-        execStmt f (.action (if on then .on else .off) (.cons (.light (.str n)) .nil)) s = (.normal, s')) ∧
+        execStmt f (.action (if on then .on else .off) true (.cons (.light (.str n)) .nil)) s = (.normal, s')) ∧
       Adds s s' [.setPower n (if on then 65535 else 0) 0] ∧ HoldsColor s'.vm c := by
   let s2 : S := ((s.setReg .power (.bool on)).setReg .name (.str n)).setReg .operand (.operand .light)
   have hr2 : Ready s2.vm :=
@@ -363,7 +363,7 @@ theorem stmt_set_zone (n : String) (zc : Nat) (i : Nat) (c : List Int) (s : S) (
     (hk : HasKind s.vm n (.multizone zc)) (hc : HoldsColor s.vm c) (hin : InRange c)
     (hi : i ≤ 65534) :
     ∃ s', (∀ f, 5 ≤ f →
-        execStmt f (.action .set (.cons (.zone (.str n) ⟨Snapshot.lit i, none⟩) .nil)) s = (.normal, s')) ∧
+        execStmt f (.action .set true (.cons (.zone (.str n) ⟨Snapshot.lit i, none⟩) .nil)) s = (.normal, s')) ∧
       Adds s s' [.setZones n i ((i : Int) + 1) c 0] := by
   let s2 : S := (((s.setReg .name (.str n)).setReg .firstZone (.int i)).setReg .lastZone .none).setReg
     .operand (.operand .mzLight)
@@ -393,7 +393,7 @@ theorem stmt_set_zone (n : String) (zc : Nat) (i : Nat) (c : List Int) (s : S) (
   rw [device_running _ _ (by rw [hdo]; exact hr2.run), hdo]
 
 def zoneStmts (n : String) (zi : List Int × Nat) : List Stmt :=
-  settingsAst zi.1 ++ [Stmt.action .set (.cons (.zone (.str n) ⟨Snapshot.lit zi.2, none⟩) .nil)]
+  settingsAst zi.1 ++ [Stmt.action .set true (.cons (.zone (.str n) ⟨Snapshot.lit zi.2, none⟩) .nil)]
 
 def zoneEvent (n : String) (zi : List Int × Nat) : Event :=
   .setZones n zi.2 ((zi.2 : Int) + 1) zi.1 0
@@ -641,7 +641,7 @@ def cellStmts (w : Nat) (ck : List Int × Nat) : List Stmt :=
 
 theorem lightAst_matrix (n : String) (h w : Nat) (cells : List (List Int)) :
     lightAst (.matrix n h w cells) =
-      [.action .set (.cons (.matrixBlock (.str n)
+      [.action .set true (.cons (.matrixBlock (.str n)
         (Block.ofList ((cells.zipIdx 0).map (cellStmts w)).flatten)) .nil)] := rfl
 
 theorem cells_run (h w : Nat) : ∀ (cells : List (List Int)) (k : Nat) (s : S) (stages : List Stage),
@@ -739,7 +739,7 @@ theorem matrix_runs (n : String) (h w : Nat) (cells : List (List Int)) (s : S)
     (by
       have : s3.vm.matrix = s2.vm.matrix := rfl
       rw [this, hm2]; simp)
-    hcells hr3.dur_wire
+    rfl rfl hcells hr3.dur_wire
   rw [tile_cells h w cells hlen, light?_name hl3] at hdo
   refine ⟨{ s3 with vm := s3.vm.emit (.setTile n cells 0 w h) }, ?_,
     ⟨ready_emit hr3 _, hd3, ?_⟩⟩
@@ -1090,12 +1090,12 @@ mutual
   def pretty : Stmt → String
     | .units .raw => "units raw\n"
     | .setReg r (.lit (.int v)) => regWord r ++ " " ++ toString v ++ " "
-    | .action .on (.cons (.light (.str n)) .nil) => "on " ++ quoted n ++ "\n"
-    | .action .off (.cons (.light (.str n)) .nil) => "off " ++ quoted n ++ "\n"
-    | .action .set (.cons (.light (.str n)) .nil) => "set " ++ quoted n ++ "\n"
-    | .action .set (.cons (.zone (.str n) ⟨.lit (.int i), none⟩) .nil) =>
+    | .action .on true (.cons (.light (.str n)) .nil) => "on " ++ quoted n ++ "\n"
+    | .action .off true (.cons (.light (.str n)) .nil) => "off " ++ quoted n ++ "\n"
+    | .action .set true (.cons (.light (.str n)) .nil) => "set " ++ quoted n ++ "\n"
+    | .action .set true (.cons (.zone (.str n) ⟨.lit (.int i), none⟩) .nil) =>
       "set " ++ quoted n ++ " zone " ++ toString i ++ "\n"
-    | .action .set (.cons (.matrixBlock (.str n) body) .nil) =>
+    | .action .set true (.cons (.matrixBlock (.str n) body) .nil) =>
       "set " ++ quoted n ++ " begin\n" ++ prettyBlock body ++ "end\n"
     | .stage (some ⟨.lit (.int r), none⟩) (some ⟨.lit (.int c), none⟩) false =>
       "stage row " ++ toString r ++ " column " ++ toString c ++ "\n"
@@ -1141,7 +1141,7 @@ theorem pretty_settings (c : List Int) :
 
 theorem pretty_zone_item (n : String) (z : List Int) (i : Nat) :
     prettyBlock (Block.ofList (settingsAst z ++
-      [Stmt.action .set (.cons (.zone (.str n) ⟨Snapshot.lit i, none⟩) .nil)])) =
+      [Stmt.action .set true (.cons (.zone (.str n) ⟨Snapshot.lit i, none⟩) .nil)])) =
     settingsText z ++ "set " ++ quoted n ++ " zone " ++ toString i ++ "\n" := by
   simp only [prettyBlock_append, pretty_settings, Block.ofList, prettyBlock, pretty, Snapshot.lit,
     String.append_assoc, String.append_empty]
